@@ -4,13 +4,15 @@
    ([wt_filter] / [wt_value], Spec/Typing.v) compiles and executes without
    panicking on every context whose mandatory fields are set and whose values
    have their declared types, and a value expression yields a value of its
-   static type or an absence tagged with it.  The first half (the real parser
-   accepts exactly [wt_*]) is validated by correspondence on exhaustive
-   matrices and random well-/ill-typed candidates (see DESIGN.md: the
-   character-level parser model is not yet part of the theorem). *)
+   static type or an absence tagged with it.  For the first half, soundness is
+   proved on the parser model: whatever parse_filter / parse_value accept
+   satisfies the typing rules (so it never fails later); completeness (every
+   well-typed candidate is accepted) is validated by correspondence on
+   exhaustive matrices and random well-/ill-typed candidates, hence [_partial]. *)
 From Coq Require Import List ZArith NArith Bool.
 From WF Require Import Base.Bytes Sem.RangeSet Lang.Types Lang.Ast Lang.Context
-     Sem.Compile Spec.Denote Spec.Typing Proofs.ExecProofs Proofs.CallProofs Proofs.FullProofs.
+     Sem.Compile Spec.Denote Spec.Typing Proofs.ExecProofs Proofs.CallProofs Proofs.FullProofs
+     Parse.Lex Parse.Parser Proofs.ParserProofs Proofs.ParserClosed.
 Import ListNotations.
 
 Definition C04_full : Prop :=
@@ -38,6 +40,39 @@ Theorem C04_static_types_agree : forall sch c, ctx_ok sch c = true -> fns_ok sch
   forall e t, wt_lexpr sch e = Some t -> ty_lexpr sch e = Some t.
 Proof.
   intros sch c Hc Hf e t H. destruct (full_correct_mut sch c Hc Hf) as (P & _). exact (proj1 (P e t H)).
+Qed.
+
+(* ---- the parser accepts only well-typed filters / value expressions ---- *)
+Theorem C04_parser_accepts_only_well_typed : forall sch st text e rest,
+  parse_filter sch st text = LOk e rest -> wt_filter sch e = true.
+Proof.
+  intros sch st text e rest H. pose proof (parse_filter_post sch st text) as P.
+  rewrite H in P. exact (proj1 (proj1 P)).
+Qed.
+
+Theorem C04_parser_accepts_only_well_typed_values : forall sch st text e rest,
+  parse_value sch st text = LOk e rest -> exists t, wt_value sch e = Some t.
+Proof.
+  intros sch st text e rest H. pose proof (parse_value_post sch st text) as P.
+  rewrite H in P. exact (proj1 (proj1 P)).
+Qed.
+
+(* text to execution: an accepted filter runs without panicking on every well-formed context *)
+Theorem C04_parsed_filter_never_panics : forall sch st text e rest c,
+  parse_filter sch st text = LOk e rest -> ctx_ok sch c = true -> fns_ok sch -> run_filter sch e c <> None.
+Proof.
+  intros sch st text e rest c H. apply accepted_never_panics.
+  eapply C04_parser_accepts_only_well_typed; eauto.
+Qed.
+
+Theorem C04_parsed_value_result_typed : forall sch st text e rest c,
+  parse_value sch st text = LOk e rest -> ctx_ok sch c = true -> fns_ok sch ->
+  exists t r, wt_value sch e = Some t /\ run_value sch e c = Some r /\
+              match r with VOk v => has_type v t = true | VAbsent t' => t' = t end.
+Proof.
+  intros sch st text e rest c H Hc Hf.
+  destruct (C04_parser_accepts_only_well_typed_values _ _ _ _ _ H) as (t & Ht).
+  destruct (value_exec_is_denote sch e c t Ht Hc Hf) as (r & Hr & _ & Hty). eauto.
 Qed.
 
 Check C04_accepted_never_panics_partial : forall sch e c,
